@@ -27,109 +27,118 @@ var plans = map[string]plan{
 		Property: "C02", Level: "fault_enumeration",
 		Quick:    []phase{{Scen: "C02", Enum: true, Seeds: 4000, Batch: 250}},
 		Thorough: []phase{{Scen: "C02", Enum: true, Seeds: 300000, Batch: 1000}},
-		Rule: "enumerated: for 5 link prototypes (sha2-256, sha2-512, sha3-256, blake2b-256, sha2-256 truncated to 20 bytes) x segmented/unsegmented x each of the 3 block requests of a sync: a bit flip at 192 (quick) / 1024 (thorough) evenly spread byte positions, truncation at as many lengths, empty, oversized (+1 MiB), three kinds of appended bytes, substitution by every block of the same chain and by two foreign blocks, short Content-Length; seeded: 1..2 body or store faults (incl. lost and failing commits) at random positions of chains 3..10, explicit and announce-triggered, two publisher addresses. Oracles: store audit recomputed with go-multihash, altered block => sync error, altered block and its ancestors never reach the hook, then heal and converge. Non-trivial when a fault fired; distinct = distinct (fault set, canonical log hash)",
-		Real:   []string{"dagsync.Subscriber", "ipnisync.Sync/Syncer (fetchBlock digest check)", "ipnisync.Publisher", "go-ipld-prime traversal", "go-multihash (also used, independently, by the audit)", "net/http client transport"},
-		Stubs:  []string{"TCP/TLS (net.Pipe)", "HTTP server loop", "block stores (in-memory, fault points)", "wall clock (testing/synctest)"},
-		Assume: commonAssume,
+		Rule:     "enumerated: for 5 link prototypes (sha2-256, sha2-512, sha3-256, blake2b-256, sha2-256 truncated to 20 bytes) x segmented/unsegmented x each of the 3 block requests of a sync: a bit flip at 192 (quick) / 1024 (thorough) evenly spread byte positions, truncation at as many lengths, empty, oversized (+1 MiB), three kinds of appended bytes, substitution by every block of the same chain and by two foreign blocks, short Content-Length; seeded: 1..2 body or store faults (incl. lost and failing commits) at random positions of chains 3..10, explicit and announce-triggered, two publisher addresses. Oracles: store audit recomputed with go-multihash, altered block => sync error, altered block and its ancestors never reach the hook, then heal and converge. Non-trivial when a fault fired; distinct = distinct (fault set, canonical log hash)",
+		Real:     []string{"dagsync.Subscriber", "ipnisync.Sync/Syncer (fetchBlock digest check)", "ipnisync.Publisher", "go-ipld-prime traversal", "go-multihash (also used, independently, by the audit)", "net/http client transport"},
+		Stubs:    []string{"TCP/TLS (net.Pipe)", "HTTP server loop", "block stores (in-memory, fault points)", "wall clock (testing/synctest)"},
+		Assume:   commonAssume,
 	},
 	"C03": {
 		Property: "C03", Level: "fault_enumeration",
 		Quick:    []phase{{Scen: "C03", Enum: true, Seeds: 3000, Batch: 250}},
 		Thorough: []phase{{Scen: "C03", Enum: true, Seeds: 200000, Batch: 1000}},
-		Rule: "enumerated: 4 libp2p key types (Ed25519, RSA-2048, ECDSA, secp256k1) x topic set/unset x libp2p-HTTP discovery/plain HTTP x direct Syncer.GetHead / Subscriber.SyncAdChain, the head response altered in transit by a bit flip at 150 evenly spread (quick) or every (thorough, bit rotating) byte position and by 18 field-level alterations (CID, topic, key, signature swapped with those of other valid heads; re-signed by another identity; stale but valid head; missing/empty fields; trailing bytes); seeded: random byte positions, other key type for the second identity. Expected verdict from an independent decode (ipld-prime generic dag-json, go-cid, libp2p crypto): accepted only if validly signed by the publisher being synced. Every run is non-trivial (one alteration fired); distinct = distinct (fault set, canonical log hash)",
-		Real:   []string{"ipnisync head.SignedHead decode/validate", "ipnisync.Syncer.GetHead", "dagsync.Subscriber.SyncAdChain", "ipnisync.Publisher (signs the head)", "libp2p crypto", "net/http client transport", "libp2p-HTTP discovery client"},
-		Stubs:  []string{"TCP/TLS (net.Pipe)", "HTTP server loop", "block stores", "wall clock (testing/synctest)"},
-		Assume: append([]string{"RSA/ECDSA/secp256k1 identities come from a committed key ring; the harness wraps ECDSA keys so that they sign deterministically (RFC 6979) instead of drawing nonces from crypto/rand - verification code is untouched"}, commonAssume...),
+		Rule:     "enumerated: 4 libp2p key types (Ed25519, RSA-2048, ECDSA, secp256k1) x topic set/unset x libp2p-HTTP discovery/plain HTTP x direct Syncer.GetHead / Subscriber.SyncAdChain, the head response altered in transit by a bit flip at 150 evenly spread (quick) or every (thorough, bit rotating) byte position and by 18 field-level alterations (CID, topic, key, signature swapped with those of other valid heads; re-signed by another identity; stale but valid head; missing/empty fields; trailing bytes); seeded: random byte positions, other key type for the second identity. Expected verdict from an independent decode (ipld-prime generic dag-json, go-cid, libp2p crypto): accepted only if validly signed by the publisher being synced. Every run is non-trivial (one alteration fired); distinct = distinct (fault set, canonical log hash)",
+		Real:     []string{"ipnisync head.SignedHead decode/validate", "ipnisync.Syncer.GetHead", "dagsync.Subscriber.SyncAdChain", "ipnisync.Publisher (signs the head)", "libp2p crypto", "net/http client transport", "libp2p-HTTP discovery client"},
+		Stubs:    []string{"TCP/TLS (net.Pipe)", "HTTP server loop", "block stores", "wall clock (testing/synctest)"},
+		Assume:   append([]string{"RSA/ECDSA/secp256k1 identities come from a committed key ring; the harness wraps ECDSA keys so that they sign deterministically (RFC 6979) instead of drawing nonces from crypto/rand - verification code is untouched"}, commonAssume...),
 	},
 	"C04": {
 		Property: "C04", Level: "fault_enumeration",
 		Quick:    []phase{{Scen: "C04", Enum: true, Seeds: 6000, Batch: 250}},
 		Thorough: []phase{{Scen: "C04", Enum: true, Seeds: 400000, Batch: 1000}},
-		Rule: "enumerated: every single fault of 23 kinds (HTTP 404/403/400/429/500/503, reset before/mid response, truncated and short bodies, bit flip, empty, substituted and extended bodies, stall, long delay, context cancellation, hook-signalled failure, store open/write/commit errors and lost commit, refused dial) at every request/block/store-op index 0..7 of a 3-ad sync, for explicit and announce-triggered syncs x libp2p-HTTP discovery and plain HTTP x segmented and unsegmented; seeded: 1..5 faults of random kind and position, chains 3..8, retryable client, two live addresses, dead first address, random pre-synced prefix. After the faulty attempt the network heals and the same head is synced again through the same subscriber. A run is non-trivial when a fault fired; distinct = distinct (fault set, canonical log hash)",
-		Real:   []string{"dagsync.Subscriber", "announce.Receiver (direct announcements)", "ipnisync.Sync/Syncer", "ipnisync.Publisher", "go-ipld-prime traversal", "net/http client transport", "libp2p-HTTP discovery client", "retryablehttp"},
-		Stubs:  []string{"TCP/TLS (net.Pipe)", "HTTP server loop", "block stores (in-memory, fault points)", "wall clock (testing/synctest)", "gossip pubsub (absent: announcements are direct)", "libp2p stream transport (absent)"},
-		Assume: commonAssume,
+		Rule:     "enumerated: every single fault of 23 kinds (HTTP 404/403/400/429/500/503, reset before/mid response, truncated and short bodies, bit flip, empty, substituted and extended bodies, stall, long delay, context cancellation, hook-signalled failure, store open/write/commit errors and lost commit, refused dial) at every request/block/store-op index 0..7 of a 3-ad sync, for explicit and announce-triggered syncs x libp2p-HTTP discovery and plain HTTP x segmented and unsegmented; seeded: 1..5 faults of random kind and position, chains 3..8, retryable client, two live addresses, dead first address, random pre-synced prefix. After the faulty attempt the network heals and the same head is synced again through the same subscriber. A run is non-trivial when a fault fired; distinct = distinct (fault set, canonical log hash)",
+		Real:     []string{"dagsync.Subscriber", "announce.Receiver (direct announcements)", "ipnisync.Sync/Syncer", "ipnisync.Publisher", "go-ipld-prime traversal", "net/http client transport", "libp2p-HTTP discovery client", "retryablehttp"},
+		Stubs:    []string{"TCP/TLS (net.Pipe)", "HTTP server loop", "block stores (in-memory, fault points)", "wall clock (testing/synctest)", "gossip pubsub (absent: announcements are direct)", "libp2p stream transport (absent)"},
+		Assume:   commonAssume,
 	},
 	"C06": {
 		Property: "C06", Level: "exploration",
 		Quick:    []phase{{Scen: "C06", Seeds: 12000, Batch: 500}},
 		Thorough: []phase{{Scen: "C06", Seeds: 1500000, Batch: 5000}},
-		Rule: "seeded histories of 5..40 operations (Refresh, Get hit/miss/negative, List) by one caller, in a third of the runs with a second caller issuing overlapping refreshes, over 1..3 gated sources and 6 providers whose per-source content appears, advances, regresses, ties, loses its time or disappears between any two steps; source failures (1/8 of calls in half of the runs), refreshes and miss-fetches cancelled while any source call is open, clock jumps of TTL-1ns/TTL/TTL+1ns/3xTTL and the refresh interval, automatic refresh in a third of the runs. Every read is compared with an executable reference model advanced at the step in which the cache publishes. Non-trivial when a fault fired or two actions were simultaneously enabled; distinct = distinct (schedule hash, fault set, canonical log hash)",
-		Real:   []string{"pcache.ProviderCache (Refresh, fetchMissing, Get, List, timers)"},
-		Stubs:  []string{"provider sources (in-process, gated at every Fetch/FetchAll)", "wall clock (testing/synctest)"},
-		Assume: append([]string{"model relaxations, each where the statement leaves the point open: records with equal advertisement time (incl. two without time) may resolve to either; a provider dropped by a refresh may keep answering 'absent' without a query; records shown only to an update that did not complete are acceptable alternatives and such providers are not probed until a completed refresh reports them"}, commonAssume...),
+		Rule:     "seeded histories of 5..40 operations (Refresh, Get hit/miss/negative, List) by one caller, in a third of the runs with a second caller issuing overlapping refreshes, over 1..3 gated sources and 6 providers whose per-source content appears, advances, regresses, ties, loses its time or disappears between any two steps; source failures (1/8 of calls in half of the runs), refreshes and miss-fetches cancelled while any source call is open, clock jumps of TTL-1ns/TTL/TTL+1ns/3xTTL and the refresh interval, automatic refresh in a third of the runs. Every read is compared with an executable reference model advanced at the step in which the cache publishes. Non-trivial when a fault fired or two actions were simultaneously enabled; distinct = distinct (schedule hash, fault set, canonical log hash)",
+		Real:     []string{"pcache.ProviderCache (Refresh, fetchMissing, Get, List, timers)"},
+		Stubs:    []string{"provider sources (in-process, gated at every Fetch/FetchAll)", "wall clock (testing/synctest)"},
+		Assume:   append([]string{"model relaxations, each where the statement leaves the point open: records with equal advertisement time (incl. two without time) may resolve to either; a provider dropped by a refresh may keep answering 'absent' without a query; records shown only to an update that did not complete are acceptable alternatives and such providers are not probed until a completed refresh reports them"}, commonAssume...),
 	},
 	"C07": {
 		Property: "C07", Level: "exploration",
 		Quick:    []phase{{Scen: "C07", Seeds: 12000, Batch: 500}},
 		Thorough: []phase{{Scen: "C07", Seeds: 1200000, Batch: 5000}, {Scen: "C07R", Seeds: 20000, Batch: 500, Race: true}},
-		Rule: "seeded: 2..4 reader tasks (Get, List) and 1..2 writer tasks (Refresh, missing Get) running concurrently over 1..3 gated sources; the scheduler holds an update open at every source call and at the yield point before each snapshot publication while readers run; clock jumps across TTL and refresh interval with readers calling at once; advertisement times grow monotonically. Oracles: a read of cached data returns in the step it was called in; every read equals the reference model as of the last publication (no missing provider, no half-built listing); no reader goes back in time. Thorough adds real-thread parallel windows under the race detector. Non-trivial when two actions were simultaneously enabled; distinct = distinct (schedule hash, canonical log hash)",
-		Real:   []string{"pcache.ProviderCache"},
-		Stubs:  []string{"provider sources (in-process, gated)", "wall clock (testing/synctest)"},
-		Assume: append([]string{"'without waiting' is decided as 'completes without any other goroutine being scheduled', not as a wall-clock bound", "data-race freedom is decided only by the thorough tier's -race windows, which are seeded but not exactly repeatable"}, commonAssume...),
+		Rule:     "seeded: 2..4 reader tasks (Get, List) and 1..2 writer tasks (Refresh, missing Get) running concurrently over 1..3 gated sources; the scheduler holds an update open at every source call and at the yield point before each snapshot publication while readers run; clock jumps across TTL and refresh interval with readers calling at once; advertisement times grow monotonically. Oracles: a read of cached data returns in the step it was called in; every read equals the reference model as of the last publication (no missing provider, no half-built listing); no reader goes back in time. Thorough adds real-thread parallel windows under the race detector. Non-trivial when two actions were simultaneously enabled; distinct = distinct (schedule hash, canonical log hash)",
+		Real:     []string{"pcache.ProviderCache"},
+		Stubs:    []string{"provider sources (in-process, gated)", "wall clock (testing/synctest)"},
+		Assume:   append([]string{"'without waiting' is decided as 'completes without any other goroutine being scheduled', not as a wall-clock bound", "data-race freedom is decided only by the thorough tier's -race windows, which are seeded but not exactly repeatable"}, commonAssume...),
 	},
 	"C08": {
 		Property: "C08", Level: "exploration",
 		Quick:    []phase{{Scen: "C08", Seeds: 4000, Batch: 125}},
 		Thorough: []phase{{Scen: "C08", Seeds: 300000, Batch: 500}},
-		Rule: "seeded: 1..3 publishers that keep extending their chains and announcing each new head (bursts of 1..6 direct announcements), explicit SyncAdChain calls for the same publishers in half of the runs, MaxAsyncConcurrency in {unlimited,1,2,#publishers}, IdleHandlerTTL 1h or 20..60s with responses delayed up to 9s, segmented or not; the scheduler interleaves callers, 11 guarded yield points inside the subscriber (a random two thirds of them active per run; lock-wait points always), pending HTTP requests, block-hook calls and clock jumps (only while everybody waits for something external). Invariants after every step: at most one block request pending or hook call in progress per publisher; announce-triggered syncs in progress <= limit. When activity has ceased: latest-sync = last delivered announcement or an error notification for it; every advertisement reported exactly once; hook calls of different syncs do not interleave and are newest-to-oldest. Non-trivial when two actions were simultaneously enabled; distinct = distinct (schedule hash, fault set, canonical log hash)",
-		Real:   []string{"dagsync.Subscriber (watch loop, per-publisher handlers, event distributor, idle-handler cleaner, Close)", "announce.Receiver (direct announcements)", "ipnisync.Sync/Syncer", "ipnisync.Publisher", "chanqueue", "go-ipld-prime traversal", "net/http client transport", "libp2p-HTTP discovery client"},
-		Stubs:  []string{"TCP/TLS (net.Pipe)", "HTTP server loop", "block stores (in-memory)", "wall clock (testing/synctest)", "gossip pubsub (absent: announcements are direct)", "libp2p stream transport (absent)"},
-		Assume: append([]string{"announced heads advance monotonically per publisher (re-ordered old heads are outside the statement)", "time passes only while every goroutine waits for something external (network, caller think time, block-hook user code, a held lock): computation takes no simulated time"}, commonAssume...),
+		Rule:     "seeded: 1..3 publishers that keep extending their chains and announcing each new head (bursts of 1..6 direct announcements), explicit SyncAdChain calls for the same publishers in half of the runs, MaxAsyncConcurrency in {unlimited,1,2,#publishers}, IdleHandlerTTL 1h or 20..60s with responses delayed up to 9s, segmented or not; the scheduler interleaves callers, 11 guarded yield points inside the subscriber (a random two thirds of them active per run; lock-wait points always), pending HTTP requests, block-hook calls and clock jumps (only while everybody waits for something external). Invariants after every step: at most one block request pending or hook call in progress per publisher; announce-triggered syncs in progress <= limit. When activity has ceased: latest-sync = last delivered announcement or an error notification for it; every advertisement reported exactly once; hook calls of different syncs do not interleave and are newest-to-oldest. Non-trivial when two actions were simultaneously enabled; distinct = distinct (schedule hash, fault set, canonical log hash)",
+		Real:     []string{"dagsync.Subscriber (watch loop, per-publisher handlers, event distributor, idle-handler cleaner, Close)", "announce.Receiver (direct announcements)", "ipnisync.Sync/Syncer", "ipnisync.Publisher", "chanqueue", "go-ipld-prime traversal", "net/http client transport", "libp2p-HTTP discovery client"},
+		Stubs:    []string{"TCP/TLS (net.Pipe)", "HTTP server loop", "block stores (in-memory)", "wall clock (testing/synctest)", "gossip pubsub (absent: announcements are direct)", "libp2p stream transport (absent)"},
+		Assume:   append([]string{"announced heads advance monotonically per publisher (re-ordered old heads are outside the statement)", "time passes only while every goroutine waits for something external (network, caller think time, block-hook user code, a held lock): computation takes no simulated time"}, commonAssume...),
 	},
 	"C09": {
 		Property: "C09", Level: "exploration",
 		Quick:    []phase{{Scen: "C09", Enum: true, Seeds: 1500, Batch: 50}},
 		Thorough: []phase{{Scen: "C09", Enum: true, Seeds: 150000, Batch: 500}},
-		Rule: "seeded histories of 50..600 operations (Direct from 4 peers with 0..3 addresses out of public/private/loopback/unspecified/localhost IPv4, IPv6 and DNS forms; UncacheCid) over alphabets of 66..90 CIDs (a quarter of the runs: 3..10), biased towards fill-touch-evict patterns, allow filter all/none/subset/changing during the run, address filtering on/off, 1..2 producers and a consumer interleaved by the scheduler so that the one-slot delivery channel fills; the consumer must receive exactly the sequence a reference model (allow filter, then LRU(64) with move-to-front and removal) delivers, with unchanged CID and peer and exactly the public addresses. Enumerated: the exported LRU against the model for every operation sequence up to length 6 (quick) / 7 (thorough) at capacities 1..4. Non-trivial when two actions were simultaneously enabled; distinct = distinct (schedule hash, canonical log hash)",
-		Real:   []string{"announce.Receiver (Direct, Next, UncacheCid, announceCheck)", "announce string LRU", "mautil.FilterPublic"},
-		Stubs:  []string{"gossip pubsub (absent: the pubsub path - republished messages, original-peer attribution, own republications - is not exercised)", "wall clock (testing/synctest)"},
-		Assume: commonAssume,
+		Rule:     "seeded histories of 50..600 operations (Direct from 4 peers with 0..3 addresses out of public/private/loopback/unspecified/localhost IPv4, IPv6 and DNS forms; UncacheCid) over alphabets of 66..90 CIDs (a quarter of the runs: 3..10), biased towards fill-touch-evict patterns, allow filter all/none/subset/changing during the run, address filtering on/off, 1..2 producers and a consumer interleaved by the scheduler so that the one-slot delivery channel fills; the consumer must receive exactly the sequence a reference model (allow filter, then LRU(64) with move-to-front and removal) delivers, with unchanged CID and peer and exactly the public addresses. Enumerated: the exported LRU against the model for every operation sequence up to length 6 (quick) / 7 (thorough) at capacities 1..4. Non-trivial when two actions were simultaneously enabled; distinct = distinct (schedule hash, canonical log hash)",
+		Real:     []string{"announce.Receiver (Direct, Next, UncacheCid, announceCheck)", "announce string LRU", "mautil.FilterPublic"},
+		Stubs:    []string{"gossip pubsub (absent: the pubsub path - republished messages, original-peer attribution, own republications - is not exercised)", "wall clock (testing/synctest)"},
+		Assume:   commonAssume,
 	},
 	"C10": {
 		Property: "C10", Level: "exploration",
 		Quick:    []phase{{Scen: "C10", Enum: true, Seeds: 8000, Batch: 250}},
 		Thorough: []phase{{Scen: "C10", Enum: true, Seeds: 600000, Batch: 2000}},
-		Rule: "seeded: the real HTTP sender (CBOR Send, SendJson, announce.Send) announces 1..5 messages (CID v0/v1 over dag-pb/raw/dag-cbor/dag-json and sha2-256/512, blake2b, identity, truncated digests; 0..4 addresses; extra data on the message or configured on the sender up to 4 KiB; with/without original peer) to 1..3 announce endpoints that decode with the real codec, in a third of the runs through a reader returning 1..7 bytes per call; in half of the runs endpoints answer error statuses, reset, stall until the 10 s time-out, or the caller cancels. Every endpoint's decoded message must equal what was sent with /p2p/<publisher> appended to each address; Send's error must name exactly the failed URLs; no sender goroutine may outlive Send. Enumerated (bounded exhaustive): for 24 base messages every prefix (EOF after every length), every single bit flip and 10 hostile headers (lengths up to 2^64-1, 8192 absent addresses, a 2 GiB address) under a panic and allocation guard; a decoded altered message must survive re-encoding. Non-trivial when addresses were compared or a fault fired; distinct = distinct (fault set, canonical log hash)",
-		Real:   []string{"announce/message (CBOR codec, JSON, SetAddrs/GetAddrs)", "announce/httpsender", "announce.Send", "net/http client transport"},
-		Stubs:  []string{"announce endpoints (harness handler over the real decoder)", "TCP (net.Pipe)", "HTTP server loop", "wall clock", "gossip sender p2psender (absent)"},
-		Assume: append([]string{"allocation is bounded by runtime.MemStats.TotalAlloc around one decode on one goroutine (heap bytes, not stack)"}, commonAssume...),
+		Rule:     "seeded: the real HTTP sender (CBOR Send, SendJson, announce.Send) announces 1..5 messages (CID v0/v1 over dag-pb/raw/dag-cbor/dag-json and sha2-256/512, blake2b, identity, truncated digests; 0..4 addresses; extra data on the message or configured on the sender up to 4 KiB; with/without original peer) to 1..3 announce endpoints that decode with the real codec, in a third of the runs through a reader returning 1..7 bytes per call; in half of the runs endpoints answer error statuses, reset, stall until the 10 s time-out, or the caller cancels. Every endpoint's decoded message must equal what was sent with /p2p/<publisher> appended to each address; Send's error must name exactly the failed URLs; no sender goroutine may outlive Send. Enumerated (bounded exhaustive): for 24 base messages every prefix (EOF after every length), every single bit flip and 10 hostile headers (lengths up to 2^64-1, 8192 absent addresses, a 2 GiB address) under a panic and allocation guard; a decoded altered message must survive re-encoding. Non-trivial when addresses were compared or a fault fired; distinct = distinct (fault set, canonical log hash)",
+		Real:     []string{"announce/message (CBOR codec, JSON, SetAddrs/GetAddrs)", "announce/httpsender", "announce.Send", "net/http client transport"},
+		Stubs:    []string{"announce endpoints (harness handler over the real decoder)", "TCP (net.Pipe)", "HTTP server loop", "wall clock", "gossip sender p2psender (absent)"},
+		Assume:   append([]string{"allocation is bounded by runtime.MemStats.TotalAlloc around one decode on one goroutine (heap bytes, not stack)"}, commonAssume...),
 	},
 	"C12": {
 		Property: "C12", Level: "exploration",
 		Quick:    []phase{{Scen: "C12", Seeds: 8000, Batch: 250}},
 		Thorough: []phase{{Scen: "C12", Seeds: 600000, Batch: 2000}},
-		Rule: "seeded: a dhstore endpoint populated by harness glue (second hash computed independently with crypto/sha256; value keys and metadata encrypted with the library) with 1..4 multihashes (sha2-256, sha2-512, identity) x 1..5 entries over identity-hashed (Ed25519) and SHA-256-hashed (RSA) peer IDs, context IDs of 0..64 bytes, an unknown provider; in two thirds of the runs the store is Byzantine: half of the entries get a value key or metadata truncated to any length (incl. 0), a bit flipped in nonce or ciphertext, encrypted under another passphrase/key, or metadata withheld; a third of the runs add transport faults (error statuses, resets before/mid response, caller cancellation mid-find) and a third run two finds concurrently. The real DHashClient (HTTP dhstore API, provider cache with HTTP source, preload on/off) must return exactly the untampered indexed entries in order; round trip, determinism, wrong-passphrase and value-key split facts are checked on every entry. Non-trivial when a non-empty expectation was compared or a fault fired; distinct = distinct (fault set, canonical log hash)",
-		Real:   []string{"dhash (SecondMultihash, Encrypt/Decrypt value key and metadata, Create/SplitValueKey)", "find/client.DHashClient + dhstoreHTTP", "pcache with HTTP source", "net/http client transport"},
-		Stubs:  []string{"dhstore and providers endpoints (harness handler over maps)", "TCP (net.Pipe)", "HTTP server loop", "wall clock"},
-		Assume: append([]string{"after any transport fault in a run missing results are tolerated (the provider cache may hold a negative entry for the TTL); wrong or duplicated results never are"}, commonAssume...),
+		Rule:     "seeded: a dhstore endpoint populated by harness glue (second hash computed independently with crypto/sha256; value keys and metadata encrypted with the library) with 1..4 multihashes (sha2-256, sha2-512, identity) x 1..5 entries over identity-hashed (Ed25519) and SHA-256-hashed (RSA) peer IDs, context IDs of 0..64 bytes, an unknown provider; in two thirds of the runs the store is Byzantine: half of the entries get a value key or metadata truncated to any length (incl. 0), a bit flipped in nonce or ciphertext, encrypted under another passphrase/key, or metadata withheld; a third of the runs add transport faults (error statuses, resets before/mid response, caller cancellation mid-find) and a third run two finds concurrently. The real DHashClient (HTTP dhstore API, provider cache with HTTP source, preload on/off) must return exactly the untampered indexed entries in order; round trip, determinism, wrong-passphrase and value-key split facts are checked on every entry. Non-trivial when a non-empty expectation was compared or a fault fired; distinct = distinct (fault set, canonical log hash)",
+		Real:     []string{"dhash (SecondMultihash, Encrypt/Decrypt value key and metadata, Create/SplitValueKey)", "find/client.DHashClient + dhstoreHTTP", "pcache with HTTP source", "net/http client transport"},
+		Stubs:    []string{"dhstore and providers endpoints (harness handler over maps)", "TCP (net.Pipe)", "HTTP server loop", "wall clock"},
+		Assume:   append([]string{"after any transport fault in a run missing results are tolerated (the provider cache may hold a negative entry for the TTL); wrong or duplicated results never are"}, commonAssume...),
 	},
 	"C14": {
 		Property: "C14", Level: "exploration",
 		Quick:    []phase{{Scen: "C14", Seeds: 4000, Batch: 125}},
 		Thorough: []phase{{Scen: "C14", Seeds: 300000, Batch: 500}},
-		Rule: "seeded: the C08 world plus 1..4 listener tasks that register, read promptly, read late, never read, or cancel at scheduler-chosen moments; the scheduler releases every notification send, registration and cancellation one at a time, so their completion order is known. The first-registered listener must receive exactly the notifications whose send points were passed, in order, with the CID and block count of the sync that sent each; every other listener exactly the run between its registration and its cancellation; cancelled listeners' channels close after what was queued. Non-trivial when two actions were simultaneously enabled; distinct = distinct (schedule hash, canonical log hash)",
-		Real:   []string{"dagsync.Subscriber (watch loop, per-publisher handlers, event distributor, idle-handler cleaner, Close)", "announce.Receiver (direct announcements)", "ipnisync.Sync/Syncer", "ipnisync.Publisher", "chanqueue", "go-ipld-prime traversal", "net/http client transport", "libp2p-HTTP discovery client"},
-		Stubs:  []string{"TCP/TLS (net.Pipe)", "HTTP server loop", "block stores (in-memory)", "wall clock (testing/synctest)", "gossip pubsub (absent: announcements are direct)", "libp2p stream transport (absent)"},
-		Assume: commonAssume,
+		Rule:     "seeded: the C08 world plus 1..4 listener tasks that register, read promptly, read late, never read, or cancel at scheduler-chosen moments; the scheduler releases every notification send, registration and cancellation one at a time, so their completion order is known. The first-registered listener must receive exactly the notifications whose send points were passed, in order, with the CID and block count of the sync that sent each; every other listener exactly the run between its registration and its cancellation; cancelled listeners' channels close after what was queued. Non-trivial when two actions were simultaneously enabled; distinct = distinct (schedule hash, canonical log hash)",
+		Real:     []string{"dagsync.Subscriber (watch loop, per-publisher handlers, event distributor, idle-handler cleaner, Close)", "announce.Receiver (direct announcements)", "ipnisync.Sync/Syncer", "ipnisync.Publisher", "chanqueue", "go-ipld-prime traversal", "net/http client transport", "libp2p-HTTP discovery client"},
+		Stubs:    []string{"TCP/TLS (net.Pipe)", "HTTP server loop", "block stores (in-memory)", "wall clock (testing/synctest)", "gossip pubsub (absent: announcements are direct)", "libp2p stream transport (absent)"},
+		Assume:   commonAssume,
 	},
 	"C15": {
 		Property: "C15", Level: "exploration",
 		Quick:    []phase{{Scen: "C15", Seeds: 4000, Batch: 125}},
 		Thorough: []phase{{Scen: "C15", Seeds: 300000, Batch: 500}},
-		Rule: "seeded: the C14 world plus 1..3 concurrent Close callers released at an arbitrary step of running explicit and announce-triggered syncs, with yield points between the six steps of the shutdown sequence; afterwards a battery of calls (SyncAdChain, SyncEntries/SyncOneEntry, Announce, GetLatestSync, SetLatestSync, RemoveHandler, Close, OnSyncFinished+cancel) each of which must return in the step it is made in. Oracles: every Close returns; no hook call, store write or notification after the first Close returned; all listener channels closed once drained; no goroutine started by the subscriber left (goroutine dump); no panic. Non-trivial when two actions were simultaneously enabled; distinct = distinct (schedule hash, canonical log hash)",
-		Real:   []string{"dagsync.Subscriber (watch loop, per-publisher handlers, event distributor, idle-handler cleaner, Close)", "announce.Receiver (direct announcements)", "ipnisync.Sync/Syncer", "ipnisync.Publisher", "chanqueue", "go-ipld-prime traversal", "net/http client transport", "libp2p-HTTP discovery client"},
-		Stubs:  []string{"TCP/TLS (net.Pipe)", "HTTP server loop", "block stores (in-memory)", "wall clock (testing/synctest)", "gossip pubsub (absent: announcements are direct)", "libp2p stream transport (absent)"},
-		Assume: append([]string{"three shutdown races that the library resolves with a select over two ready channels (buffered announcement vs. closed receiver; listener registration/cancellation vs. closing signal) are kept out of the schedule space: which branch the Go runtime takes would not replay. Both outcomes are legal."}, commonAssume...),
+		Rule:     "seeded: the C14 world plus 1..3 concurrent Close callers released at an arbitrary step of running explicit and announce-triggered syncs, with yield points between the six steps of the shutdown sequence; afterwards a battery of calls (SyncAdChain, SyncEntries/SyncOneEntry, Announce, GetLatestSync, SetLatestSync, RemoveHandler, Close, OnSyncFinished+cancel) each of which must return in the step it is made in. Oracles: every Close returns; no hook call, store write or notification after the first Close returned; all listener channels closed once drained; no goroutine started by the subscriber left (goroutine dump); no panic. Non-trivial when two actions were simultaneously enabled; distinct = distinct (schedule hash, canonical log hash)",
+		Real:     []string{"dagsync.Subscriber (watch loop, per-publisher handlers, event distributor, idle-handler cleaner, Close)", "announce.Receiver (direct announcements)", "ipnisync.Sync/Syncer", "ipnisync.Publisher", "chanqueue", "go-ipld-prime traversal", "net/http client transport", "libp2p-HTTP discovery client"},
+		Stubs:    []string{"TCP/TLS (net.Pipe)", "HTTP server loop", "block stores (in-memory)", "wall clock (testing/synctest)", "gossip pubsub (absent: announcements are direct)", "libp2p stream transport (absent)"},
+		Assume:   append([]string{"three shutdown races that the library resolves with a select over two ready channels (buffered announcement vs. closed receiver; listener registration/cancellation vs. closing signal) are kept out of the schedule space: which branch the Go runtime takes would not replay. Both outcomes are legal."}, commonAssume...),
+	},
+	"C18": {
+		Property: "C18", Level: "fault_enumeration",
+		Quick:    []phase{{Scen: "C18", Enum: true, Seeds: 4000, Batch: 250}},
+		Thorough: []phase{{Scen: "C18", Enum: true, Seeds: 300000, Batch: 1000}},
+		Rule:     "enumerated: for each libp2p key type x {ingest, register}: the sealed request produced by the real client is altered in transit at every byte position (one bit; all eight in the thorough tier), truncated at 64 evenly spread lengths, extended by one byte, replayed to the other endpoint (cross-domain), and signed with a key of another identity of each key type; seeded: 2..8 requests per run over random multihash, context ID (0..64 bytes), metadata, 1..3 addresses, honest or Byzantine signer of any key type, random alteration. The admin endpoint calls the real Read functions; accepted <=> unaltered (or decoding to the same fields), right endpoint, signer is the named provider; the client's result must agree with the endpoint's. Every run is non-trivial; distinct = distinct canonical log hash",
+		Real:     []string{"ingest/client (IndexContent, Register)", "ingest/model (MakeIngestRequest, ReadIngestRequest, MakeRegisterRequest, ReadRegisterRequest)", "libp2p record envelopes", "net/http client transport"},
+		Stubs:    []string{"indexer admin endpoint (harness handler over the real Read functions)", "TCP (net.Pipe)", "HTTP server loop"},
+		Assume:   commonAssume,
 	},
 	"C19": {
 		Property: "C19", Level: "exploration",
 		Quick:    []phase{{Scen: "C19", Seeds: 8000, Batch: 250}},
 		Thorough: []phase{{Scen: "C19", Seeds: 600000, Batch: 2000}},
-		Rule: "seeded: a find endpoint built on the real response writer (prefer-JSON on/off, default and custom path types, http/https) over an index of 1..5 multihashes (sha2-256, sha2-512, identity) with 0..8 results each (nil / empty / binary context IDs and metadata, providers with 0..3 addresses); 4..14 operations per run: the real client's Find and FindBatch (present, absent, mixed), and raw requests over key forms (base58, hex, CIDv1 raw / dag-cbor, non-keys, base58 non-multihash), resource types (known, unknown, prefixed paths) and 13 Accept header combinations (absent, */*, json, ndjson, lists, parameters, unsupported, malformed). Delivery is chunked at random sizes; in a third of the runs responses are reset or cut mid-body or the caller cancels mid-stream (then an operation may fail but never return other data). NDJSON bodies are split at the recorder's flush boundaries. Non-trivial when a non-empty result set was compared or a fault fired; distinct = distinct (fault set, canonical log hash)",
-		Real:   []string{"rwriter.ResponseWriter / ProviderResponseWriter", "find/client.Client.Find, FindBatch", "find/model JSON", "apierror encode/decode", "net/http client transport"},
-		Stubs:  []string{"the find endpoint's index (a map) and handler glue", "TCP/TLS (net.Pipe)", "HTTP server loop with flush recorder", "wall clock"},
-		Assume: append([]string{"when both JSON and NDJSON are acceptable either representation is accepted (the statement does not fix the precedence)"}, commonAssume...),
+		Rule:     "seeded: a find endpoint built on the real response writer (prefer-JSON on/off, default and custom path types, http/https) over an index of 1..5 multihashes (sha2-256, sha2-512, identity) with 0..8 results each (nil / empty / binary context IDs and metadata, providers with 0..3 addresses); 4..14 operations per run: the real client's Find and FindBatch (present, absent, mixed), and raw requests over key forms (base58, hex, CIDv1 raw / dag-cbor, non-keys, base58 non-multihash), resource types (known, unknown, prefixed paths) and 13 Accept header combinations (absent, */*, json, ndjson, lists, parameters, unsupported, malformed). Delivery is chunked at random sizes; in a third of the runs responses are reset or cut mid-body or the caller cancels mid-stream (then an operation may fail but never return other data). NDJSON bodies are split at the recorder's flush boundaries. Non-trivial when a non-empty result set was compared or a fault fired; distinct = distinct (fault set, canonical log hash)",
+		Real:     []string{"rwriter.ResponseWriter / ProviderResponseWriter", "find/client.Client.Find, FindBatch", "find/model JSON", "apierror encode/decode", "net/http client transport"},
+		Stubs:    []string{"the find endpoint's index (a map) and handler glue", "TCP/TLS (net.Pipe)", "HTTP server loop with flush recorder", "wall clock"},
+		Assume:   append([]string{"when both JSON and NDJSON are acceptable either representation is accepted (the statement does not fix the precedence)"}, commonAssume...),
 	},
 	"C16": {
 		Property: "C16", Level: "exploration",
